@@ -108,6 +108,42 @@ def main():
                      "windows": {k: [a - T0, b_ - T0] for k, (a, b_) in windows.items()}, "code": code,
                      "match": {"op": "verify_reg", "clock": "chain"}}
             (res.violations if code["k"] == "accept" else res.nonblocking).append(entry)
+    # ---- the same sweep for every other format that carries a certificate chain (each has its own verifier and may treat
+    # its certificates in its own way): clock just before / after every member's notBefore and notAfter, from a second to
+    # ten minutes away
+    for fmtx, chx, nint in (("tpm", ("rsa", 0, core.RS256), 1), ("apple", ("p256", 0, core.ES256), 1),
+                            ("android-key", ("p256", 0, core.ES256), 1), ("fido-u2f", ("p256", 1, core.ES256), 0)):
+        bx = _reg.build(fmtx, chx, (), n_intermediates=nint, base_time=base)
+        if bx is None:
+            continue
+        reqx, rx = bx
+        ex, cx = _reg.expectation(reqx, rx.roots), rx.credential
+        membx = [rx.chain.leaf] + list(rx.chain.intermediates) + [rx.chain.root]
+        winx = [(v.not_valid_before_utc.timestamp(), v.not_valid_after_utc.timestamp()) for v in membx]
+        offx = set()
+        for nb, na in winx:
+            for d in (-601, -301, -299, -120, -30, -2, -1, 1, 2, 30, 120, 299, 301, 601):
+                offx.add(nb + d)
+                offx.add(na + d)
+        offx.add(T0)
+        for t in sorted(offx):
+            if t < 0:
+                continue
+            set_clock(t + 0.5)
+            code = cases.run_reg(cx, ex)
+            res.evaluations += 1
+            tie.check(cases.reg_case(cx, ex), code, label=["chain-at", fmtx, t - T0])
+            ti = int(t + 0.5)
+            inside = all(nb <= ti <= na for nb, na in winx)
+            edge = any(ti == na for nb, na in winx)
+            res.nontrivial.add(("chain", fmtx, TZ, t - T0))
+            res.count(f"chain-{fmtx}:" + corr.kind(code))
+            if not edge and (code["k"] == "accept") != inside:
+                kind = "accepted outside" if code["k"] == "accept" else "rejected inside"
+                entry = {"why": f"{fmtx}: certificate chain {kind} the validity periods at clock offset {t - T0:+.0f}s (process TZ={TZ})",
+                         "offset": t - T0, "fmt": fmtx, "windows": [[a - T0, b_ - T0] for a, b_ in winx], "code": code,
+                         "match": {"op": "verify_reg", "clock": "chain", "fmt": fmtx}}
+                (res.violations if code["k"] == "accept" else res.nonblocking).append(entry)
     # the same response, clock moving between calls (never cached)
     leaf_na = windows["leaf"][1]
     seq = [T0, leaf_na + 5, T0, windows["leaf"][0] - 5, T0 + 60, leaf_na + 1000, T0]
